@@ -156,15 +156,14 @@ func runC14(c *Ctx) {
 			reason := reasonOf(info, call)
 			guard := ""
 			for _, a := range g.AtomsAt(h.Loc) {
-				s := core.ExprString(a.Expr)
 				switch {
-				case a.Val && strings.Contains(s, "numPredicted >= ") && strings.Contains(s, "numPredict"):
+				case a.Val && isLimitTest(a.Expr):
 					guard = "limit"
-				case a.Val && s == "seq.embeddingOnly":
+				case a.Val && selName(a.Expr) == "embeddingOnly":
 					guard = "embedding"
-				case a.Val && (strings.Contains(s, "SpecialEOS") || strings.Contains(s, "TokenIsEog")):
+				case a.Val && (mentionsSel(a.Expr, "SpecialEOS") || mentionsSel(a.Expr, "TokenIsEog")):
 					guard = "eos"
-				case !a.Val && strings.Contains(s, "flushPending("):
+				case !a.Val && len(core.CallsTo(info, a.Expr, false, rel+".flushPending")) == 1:
 					guard = "flush-failed"
 				}
 				if id, ok := ast.Unparen(a.Expr).(*ast.Ident); ok && a.Val {
@@ -177,7 +176,7 @@ func runC14(c *Ctx) {
 			}
 			// `seq.numPredict > 0 && seq.numPredicted >= seq.numPredict`: split atoms
 			for _, a := range g.AtomsAt(h.Loc) {
-				if be, ok := ast.Unparen(a.Expr).(*ast.BinaryExpr); ok && a.Val && be.Op == token.GEQ && selName(be.X) == "numPredicted" && selName(be.Y) == "numPredict" {
+				if a.Val && isLimitTest(a.Expr) {
 					guard = "limit"
 				}
 			}
@@ -212,7 +211,7 @@ func runC14(c *Ctx) {
 			// its guard's condition block must dominate every addition to the batch
 			var guardBlk core.Loc
 			for _, a := range g.Atoms2(limitRm.Loc) {
-				if be, ok := ast.Unparen(a.Expr).(*ast.BinaryExpr); ok && a.Val && be.Op == token.GEQ && selName(be.X) == "numPredicted" {
+				if a.Val && isLimitTest(a.Expr) {
 					guardBlk = g.CondLoc(a.Blk)
 				}
 			}
@@ -553,4 +552,14 @@ func hex(v int64) string {
 		v /= 16
 	}
 	return "0x" + s
+}
+
+// isLimitTest: numPredicted >= numPredict (either operand order).
+func isLimitTest(e ast.Expr) bool {
+	be, ok := ast.Unparen(e).(*ast.BinaryExpr)
+	if !ok {
+		return false
+	}
+	_, y, op, okO := core.Orient(be, func(x ast.Expr) bool { return selName(x) == "numPredicted" })
+	return okO && op == token.GEQ && selName(y) == "numPredict"
 }
